@@ -101,11 +101,15 @@ def cases(rng, tier):
         if it >= n_main:
             cls, f = "ragged", "col_range"
         p = {"inp": inp, "cls": cls, "f": f, "dtype": rng.choice(["int64", "int64", "int32", "float64", "uint8", "uint64", "int8", "float32"])}
+        if f in ("rows", "col_int", "col_range"):
+            p["variant"] = rng.choice([0, 1, 2, 3])      # list / mask row selectors as plain Python lists (even) or ndarrays (odd)
         if f in ("rows", "col_int", "col_range") and rng.random() < 0.25:
             # rl[..., cols] / rl[rows, ...] / rl[(rows,)]; a trailing Ellipsis stands for the column range [:], which the property
             # promises for the ragged variant only
             p["ell"] = rng.choice(["left", "right", "tuple"] if cls == "ragged" else ["left", "tuple"])
-        if inp["kind"] != "intervals" and rng.random() < 0.2:
+        if inp["kind"] != "intervals" and p["dtype"] in ("float64", "float32") and rng.random() < 0.35:
+            p["vmap"] = "near"
+        elif inp["kind"] != "intervals" and rng.random() < 0.2:
             p["vmap"] = "big"         # cell classes 1, 2, 3 stand for max, max - 1, 1 of the dtype: products value x run length leave a narrow dtype
         if inp["kind"] == "matrix" and rng.random() < 0.3:
             p["order"] = rng.choice(["F", "T"])     # the input matrix is Fortran-ordered / a transposed view
@@ -162,6 +166,10 @@ def distribution(ps):
 
 
 def _vmapped(p, rows):
+    if p.get("vmap") == "near":
+        # cell classes stand for floating-point values that are different but close (0.3 / 0.1 + 0.2 / 0.3 - 4e-17), or far below 1
+        m = {0: 0.0, 1: 0.3, 2: 0.1 + 0.2, 3: 1e-9} if np.dtype(p["dtype"]) == np.float64 else {0: 0.0, 1: 1.0, 2: float(np.nextafter(np.float32(1.0), np.float32(2.0))), 3: 1e-9}
+        return [[m[v] for v in r] for r in rows]
     if p.get("vmap") != "big":
         return rows
     dt = np.dtype(p["dtype"])
@@ -247,7 +255,7 @@ def run_impl(p):
             if f == "row_int":
                 return {"k": "val", "v": _norm(rl[p["i"]])}
             if f == "rows":
-                rs = ragidx.py_rowsel(p["sel"], 1) if p["sel"]["t"] != "all" else slice(None)
+                rs = ragidx.py_rowsel(p["sel"], p.get("variant", 1)) if p["sel"]["t"] != "all" else slice(None)
                 ell = p.get("ell")      # the same selection spelled with an Ellipsis / as a 1-tuple
                 return {"k": "val", "v": _norm(rl[(rs, Ellipsis)] if ell == "right" else rl[(rs,)] if ell == "tuple" else rl[rs])}
             if f == "element":
@@ -256,9 +264,9 @@ def run_impl(p):
                 j = p["j"] if p.get("jform", "int") == "int" else np.dtype(p["jform"]).type(p["j"])
                 if p["rsel"]["t"] == "all" and p.get("ell") == "left":
                     return {"k": "val", "v": _norm(rl[..., j])}
-                return {"k": "val", "v": _norm(rl[ragidx.py_rowsel(p["rsel"], 1) if p["rsel"]["t"] != "all" else slice(None), j])}
+                return {"k": "val", "v": _norm(rl[ragidx.py_rowsel(p["rsel"], p.get("variant", 1)) if p["rsel"]["t"] != "all" else slice(None), j])}
             if f == "col_range":
-                rs = ragidx.py_rowsel(p["rsel"], 1) if p["rsel"]["t"] != "all" else slice(None)
+                rs = ragidx.py_rowsel(p["rsel"], p.get("variant", 1)) if p["rsel"]["t"] != "all" else slice(None)
                 if p["rsel"]["t"] == "all" and p.get("ell") == "left":
                     return {"k": "val", "v": _norm(rl[..., slice(p["a"], p["b"], p["s"])])}
                 return {"k": "val", "v": _norm(rl[rs, slice(p["a"], p["b"], p["s"])])}
